@@ -43,6 +43,7 @@ structure Aq where
   moles : Float
   erm : Float
   la : Float
+  lg : Float
   g : List (String × Float)
 
 structure Unk where
@@ -84,6 +85,16 @@ structure Comp where
   moles : Float
   elt : String
 
+/-- a surface species as READ FROM THE DATABASE / INPUT TEXT by tools/dbparse.py (nothing of the engine) -/
+structure DbSp where
+  name : String
+  z : Float
+  toks : List (String × Float × Float × Int)   -- name, coefficient, charge, kind (0 aq, 1 H+, 2 H2O, 3 e-, 6 surface)
+  vec : List Float                              -- [logK_T0, ΔH kJ, A1..A6]
+  hasCd : Bool
+  cd : List Float
+  elts : List (String × Float)
+
 structure Block where
   case : String := ""
   blk : String := ""
@@ -105,6 +116,11 @@ structure Block where
   sps : Array Sp := #[]
   aqs : Array Aq := #[]
   outs : Array (String × Float) := #[]
+  laH2O : Float := 0
+  laE : Float := 0
+  gtol : Float := 1e-9
+  db : Array DbSp := #[]
+  gmaps : Array (String × Float × Float) := #[]
 
 def fh (s : String) : Float := (floatOfHex s).getD (0.0 / 0.0)
 def sh (s : String) : String := (unhexStr s).getD "?"
@@ -146,6 +162,28 @@ def parseP (ws : List String) : Option Sp :=
     | _ => none
   | _ => none
 
+def takeDbToks : Nat → List String → List (String × Float × Float × Int) → List (String × Float × Float × Int) × List String
+  | 0, ws, acc => (acc.reverse, ws)
+  | n + 1, a :: b :: c :: d :: rest, acc => takeDbToks n rest ((sh a, fh b, fh c, d.toInt?.getD 0) :: acc)
+  | _, ws, acc => (acc.reverse, ws)
+
+def takeEltPairs : Nat → List String → List (String × Float) → List (String × Float)
+  | 0, _, acc => acc.reverse
+  | n + 1, a :: b :: rest, acc => takeEltPairs n rest ((sh a, fh b) :: acc)
+  | _, _, acc => acc.reverse
+
+/-- `D case name z nt [name coef z kind]* v0..v7 hascd c0..c4 ne [elt coef]*` -/
+def parseD (ws : List String) : Option DbSp :=
+  match ws with
+  | name :: z :: nt :: rest =>
+    let (toks, rest) := takeDbToks (nt.toNat?.getD 0) rest []
+    match rest with
+    | v0 :: v1 :: v2 :: v3 :: v4 :: v5 :: v6 :: v7 :: hc :: c0 :: c1 :: c2 :: c3 :: c4 :: ne :: rest =>
+      some { name := sh name, z := fh z, toks := toks, vec := [v0, v1, v2, v3, v4, v5, v6, v7].map fh, hasCd := hc == "1",
+             cd := [c0, c1, c2, c3, c4].map fh, elts := takeEltPairs (ne.toNat?.getD 0) rest [] }
+    | _ => none
+  | _ => none
+
 def addLine (b : Block) (ws : List String) : Block :=
   match ws with
   | "G" :: hv :: st :: rest =>
@@ -174,9 +212,11 @@ def addLine (b : Block) (ws : List String) : Block :=
     match parseP rest with
     | some sp => { b with sps := b.sps.push sp }
     | none => b
-  | "A" :: n :: z :: lm :: mo :: erm :: la :: ng :: rest =>
+  | ["Gm", n, z, g] => { b with gmaps := b.gmaps.push (sh n, fh z, fh g) }
+  | ["W", a, e, _h, gt] => { b with laH2O := fh a, laE := fh e, gtol := fh gt }
+  | "A" :: n :: z :: lm :: mo :: erm :: la :: lg :: ng :: rest =>
     let a : Aq :=
-      { name := sh n, z := fh z, lm := fh lm, moles := fh mo, erm := fh erm, la := fh la,
+      { name := sh n, z := fh z, lm := fh lm, moles := fh mo, erm := fh erm, la := fh la, lg := fh lg,
         g := takePairs (ng.toNat?.getD 0) rest [] }
     { b with aqs := b.aqs.push a }
   | ["R", h, v] =>
@@ -207,6 +247,41 @@ def evalBlock (b : Block) (prev : Array (String × Float)) : Array String × Arr
   let sites := b.unks.filter (·.type == 20)
   out := out.push s!"N {b.case} {b.blk} {if b.present then 1 else 0} {b.state} {b.stype} {b.dltype} {sites.size} {b.charges.size} {b.sps.size}"
   if !b.present then return (out, hist)
+  -- 0. species data "as given": overlay the reading of the database / input TEXT (D lines) on the engine's dump; every
+  --    engine value that is replaced is tied to the text reading by a T relation -----------------------------------------
+  let siteNames := sites.map (·.elt)
+  let laOf (nm : String) : Float :=
+    if nm == "H2O" then b.laH2O else if nm == "e-" then b.laE else
+    match b.sps.find? (·.name == nm) with
+    | some sp => if sp.primary then sp.la else sp.lm + sp.lg
+    | none => match b.aqs.find? (·.name == nm) with
+      | some a => a.lm + a.lg
+      | none => 0.0 / 0.0
+  let mut sps2 : Array Sp := #[]
+  for sp in b.sps do
+    match b.db.find? (·.name == sp.name) with
+    | none =>
+      if b.db.size > 0 then out := out.push (vline b "T" "db-missing" sp.name false 0 1)
+      sps2 := sps2.push sp
+    | some d =>
+      -- reaction: same tokens and coefficients
+      let same := d.toks.length == sp.rxn.length && d.toks.all fun t =>
+        sp.rxn.any fun e => e.name == t.1 && close 1e-12 1e-12 e.coef t.2.1
+      out := out.push (vline b "T" "db-rxn" sp.name same d.toks.length.toFloat sp.rxn.length.toFloat)
+      let lk := kCalc d.vec b.tk
+      out := out.push (vline b "T" "db-lk" sp.name (close 1e-12 1e-12 sp.lkdb lk) sp.lkdb lk)
+      out := out.push (vline b "T" "db-z" sp.name (close 1e-12 1e-12 sp.z d.z) sp.z d.z)
+      let cdOk := match sp.cd with
+        | [a0, a1, a2, a3, a4] => (d.cd.zip [a0, a1, a2, a3, a4]).all fun pr => close 1e-12 1e-12 pr.1 pr.2
+        | _ => false
+      if b.stype == 3 || d.hasCd then out := out.push (vline b "T" "db-cd" sp.name cdOk 0 0)
+      let siteCnt (l : List (String × Float)) := l.foldl (fun a e => if siteNames.contains e.1 then a + e.2 else a) 0.0
+      let engCnt := sp.elts.foldl (fun a e => if e.2.2 == 6 then a + e.2.1 else a) 0.0
+      out := out.push (vline b "T" "db-elt" sp.name (close 1e-12 1e-12 engCnt (siteCnt d.elts)) engCnt (siteCnt d.elts))
+      let toks : List TokD := d.toks.map fun t => { name := t.1, coef := t.2.1, la := laOf t.1, type := t.2.2.2, z := t.2.2.1 }
+      let elts := d.elts.map fun e => (e.1, e.2, (if siteNames.contains e.1 then (6 : Int) else 0))
+      sps2 := sps2.push { sp with rxn := toks, lkdb := lk, z := d.z, cd := if d.hasCd || b.stype == 3 then d.cd else sp.cd, elts := elts }
+  let b := { b with sps := sps2 }
   let env : Env Float := { tol := relTol, ineqTol := b.ineqTol, minRel := b.minRel, epsr := b.epsr, tk := b.tk, mu := b.mu }
   let tk := b.tk
   -- which charge a site element belongs to
@@ -254,10 +329,17 @@ def evalBlock (b : Block) (prev : Array (String × Float)) : Array String × Arr
     match sp.rxn.find? (·.type == 6) with
     | none => out := out.push (vline b "V" "ma" sp.name false 0 0)
     | some mtok =>
-      let siteU := sites.find? (·.masterName == mtok.name)
+      let siteU := match sites.find? (·.masterName == mtok.name) with
+        | some u => some u
+        | none => match siteEltOf sp with
+          | some el => sites.find? (·.elt == el)
+          | none => none
       let nsites := match siteU with | some u => u.moles | none => 0.0
       let ch := match siteU with | some u => chargeOfElt u.elt | none => ""
-      let equiv : Float := if b.stype == 3 then 1.0 else mtok.coef
+      -- `equiv` = coefficient of the surface master in the reaction (rewritten to the master when the text uses another species)
+      let mIsPrimary := match b.sps.find? (·.name == mtok.name) with | some m => m.primary | none => false
+      let equivX := match sp.rxnx.find? (·.type == 6) with | some t => t.coef | none => mtok.coef
+      let equiv : Float := if b.stype == 3 then 1.0 else if mIsPrimary then mtok.coef else equivX
       let lg := lgSurf equiv nsites
       out := out.push (vline b "T" "lg" sp.name (close 1e-13 1e-13 sp.lg lg) sp.lg lg)
       let dzAq := sp.rxn.foldl (fun acc t => if isAqTok t then acc + t.z * t.coef else acc) 0.0
@@ -310,6 +392,53 @@ def evalBlock (b : Block) (prev : Array (String × Float)) : Array String × Arr
       let sigSp := sigmaOfCharge q c.area c.grams
       let qdl := b.aqs.foldl (fun a s => a + (s.g.foldl (fun a2 g => if g.1 == c.name then a2 + s.z * g.2 else a2) 0.0)) 0.0
       let qdlAbs := b.aqs.foldl (fun a s => a + (s.g.foldl (fun a2 g => if g.1 == c.name then a2 + (s.z * g.2).abs else a2) 0.0)) 0.0
+      -- 4b. diffuse-layer COMPOSITION: the excess factor g(z) of every charge number and the moles of every species in
+      --     the layer, recomputed by the model of calc_all_donnan / calc_psi_avg or of calc_all_g (Romberg integration)
+      if b.dltype != 0 && c.water ≥ 0.0 then
+        let ratio := c.water / b.mwAq
+        let gs := b.gmaps.filter (·.1 == c.name)
+        let zs := (b.aqs.foldl (fun (acc : Array Float) a => if acc.contains a.z then acc else acc.push a.z) #[]).qsort (· < ·)
+        let groups : List (Float × Float) := zs.toList.map fun z =>
+          (z, b.aqs.foldl (fun acc a => if a.z == z then acc + a.z * a.moles * a.erm else acc) 0.0)
+        let aqm : List (Float × Float) := b.aqs.toList.map fun a => (a.moles, a.z)
+        let laPsi : Float := match (if b.stype == 3 then cbOf c.name 23 else cbOf c.name 21) with
+          | some u => u.masterLa
+          | none => 0.0 / 0.0
+        let gModel : Float → Option Float :=
+          if b.dltype == 2 then
+            let fpsi := if b.stype == 3 then laPsi * LOG_10 / 2.0 else laPsi * LOG_10
+            let sq := surfChrgEq b.epsr tk b.mu (c.area * c.grams) fpsi
+            let cdm : Float := if b.stype == 3 then 1.0 else -1.0
+            match psiAvg sq ratio b.mu b.gtol b.onlyCounter groups with
+            | some p => fun z => if ratio == 0.0 then some 0.0 else some (donnanG sq ratio b.gtol cdm b.onlyCounter z p)
+            | none => fun _ => none
+          else fun z => if z == 0.0 then some 0.0 else borkovecG b.epsr tk laPsi c.area c.grams b.gtol b.mwAq b.onlyCounter aqm z
+        let kindG := if b.dltype == 2 then "donnan-g" else "borkovec-g"
+        for g in gs do
+          match gModel g.2.1 with
+          | some gm => out := out.push (vline b "T" kindG s!"{c.name}:{g.2.1}" (close 1e-6 1e-9 g.2.2 gm) g.2.2 gm)
+          | none => out := out.push (vline b "T" kindG s!"{c.name}:{g.2.1}" false g.2.2 0)
+        -- every species: moles in the layer = moles·erm_ddl·(g(z) + water_DL/water_aq), g from the MODEL; the engine's
+        -- g_moles were formed with the g of the previous pass, which the convergence test allows to differ by 1e-8
+        for a in b.aqs do
+          match a.g.find? (·.1 == c.name), gModel a.z with
+          | some gmol, some gm =>
+            let pred := gMoles a.moles a.erm gm ratio
+            let slack := a.moles * a.erm * b.tol * 1.001 * Surface.maxv 1.0 gm.abs
+            out := out.push (vline b "V" "dl-excess" s!"{c.name}:{a.name}" (close 1e-6 (slack + 1e-30) gmol.2 pred) gmol.2 pred)
+          | _, _ => pure ()
+        -- Donnan (DDL/CCM): the layer as a whole balances the Gouy–Chapman charge at the reported ψ:
+        -- Σ_z eq_z·(g(z) + ratio) = −A·f_sinh·sinh(Fψ/2RT)/F
+        if b.dltype == 2 && b.stype != 3 && ratio > 0.0 then
+          let sq := surfChrgEq b.epsr tk b.mu (c.area * c.grams) (laPsi * LOG_10)
+          let tot := groups.foldl (fun acc gz =>
+            if b.onlyCounter && sq * gz.1 > 0.0 then acc else   -- co-ions are kept out of the layer (g = −ratio + G_TOL·1e-3)
+            match gs.find? (fun g => g.2.1 == gz.1) with
+            | some g => acc + gz.2 * (g.2.2 + ratio)
+            | none => acc) 0.0
+          let scale := groups.foldl (fun acc gz => acc + (gz.2 * ratio).abs) sq.abs
+          if sq.abs < 5000.0 then
+            out := out.push (vline b "V" "donnan-neutral" c.name (close 1e-7 (1e-9 * scale) tot (-sq)) tot (-sq))
       let pubPsi := findOut b s!"psi:{c.name}"
       let pubSig := findOut b s!"sigma:{c.name}"
       let pubMu := (findOut b "mu").getD b.mu
@@ -394,14 +523,23 @@ def run : IO Unit := do
   let mut cur : Option Block := none
   let mut hist : Array (String × Float) := #[]
   let mut lastCase := ""
+  let mut dbs : Array DbSp := #[]
+  let mut dbCase := ""
   for l in lines do
     let ws := words l
     match ws with
+    | "D" :: c :: rest =>
+      if c != dbCase then
+        dbs := #[]
+        dbCase := c
+      match parseD rest with
+      | some d => dbs := dbs.push d
+      | none => pure ()
     | ["B", c, k] =>
       if c != lastCase then
         hist := #[]
         lastCase := c
-      cur := some { case := c, blk := k }
+      cur := some { case := c, blk := k, db := if c == dbCase then dbs else #[] }
     | ["E"] =>
       match cur with
       | some b =>
